@@ -102,7 +102,25 @@ pub fn run(cases_path: &str, out_path: &str, tier: &str, seed: u64) {
                     Ok(())
                 });
                 let got = signer.last();
-                let ok = r.is_ok() && got.as_deref() == Some(&want_digest[..]);
+                let mut ok = r.is_ok() && got.as_deref() == Some(&want_digest[..]);
+                // the same chunking with an empty write before, between and after the chunks (an empty write changes nothing)
+                if ok && ch.len() <= 8 {
+                    let signer2 = RecSigner::new(&key.primary_key);
+                    let r2 = guard(|| -> pgp::errors::Result<()> {
+                        let cfg = SignatureConfig::v4(SignatureType::Text, key.primary_key.algorithm(), hash);
+                        let mut h = cfg.into_hasher()?;
+                        let mut off = 0;
+                        let _ = h.write(&[])?;
+                        for k in &ch {
+                            let _ = h.write(&bytes[off..off + k])?;
+                            let _ = h.write(&[])?;
+                            off += k;
+                        }
+                        h.sign(&signer2, &Password::empty())?;
+                        Ok(())
+                    });
+                    ok = r2.is_ok() && signer2.last().as_deref() == Some(&want_digest[..]);
+                }
                 let fkey = if !ok && s.last().map(|x| x == "C").unwrap_or(false) {
                     "hasher_trailing_cr"
                 } else {
@@ -194,6 +212,28 @@ pub fn run(cases_path: &str, out_path: &str, tier: &str, seed: u64) {
                     fkey,
                     json!({"outcome": r.class(), "verifier_saw_canon_digest": seen_ok, "detail": r.detail()}),
                 ));
+                // (6) the streaming message reader: the same signature in front of a literal packet (prefix-signed message), read under schedules
+                if variant == 0 {
+                    use pgp::composed::Message;
+                    use pgp::ser::Serialize;
+                    let mut msg = pgp::packet::Packet::from(sig.clone()).to_bytes().unwrap_or_default();
+                    let lit = crate::wire::literal_body(b"", &bytes);
+                    msg.push(0xC0 | 11);
+                    msg.extend(crate::wire::enc_new_len(lit.len(), true));
+                    msg.extend_from_slice(&lit);
+                    for sched in [vec![usize::MAX], vec![1usize], vec![3, 509]] {
+                        let rv = RecVerifier::new(&pubkey);
+                        let r = guard(|| -> Result<(), String> {
+                            let mut m = Message::from_bytes(SchedBufReader::new(SchedReader::new(msg.clone(), sched.clone()))).map_err(|e| e.to_string())?;
+                            let mut o = Vec::new();
+                            m.read_to_end(&mut o).map_err(|e| e.to_string())?;
+                            m.verify(&rv).map(|_| ()).map_err(|e| e.to_string())
+                        });
+                        let seen_ok = rv.last().as_deref() == Some(&want_digest[..]);
+                        sink.put(rec("c14.prefix_signed_message", json!({"s": s.join(""), "sched": sched.len()}), r.is_ok() && seen_ok, fkey,
+                            json!({"outcome": r.class(), "verifier_saw_canon_digest": seen_ok, "detail": r.detail()})));
+                    }
+                }
                 if s.len() <= 6 && variant == 0 {
                     // the canonical form itself is an LF->CRLF conversion of s
                     let r = guard(|| sig.verify(&pubkey, &want[..]));
